@@ -32,7 +32,7 @@ NextPort == IF FreePorts = {} THEN {} ELSE {CHOOSE s \in FreePorts : \A x \in Fr
 
 \* Each kind of step is ONE action for TLC (the leading conjunct keeps TLC from splitting the quantifiers into one
 \* action per parameter value), so the simulator chooses the kind uniformly and only then the parameters.
-One == hist # <<>>
+One == Len(hist) <= GenDepth
 
 GPolicy == /\ One
            /\ \E d \in Listable :
@@ -61,11 +61,15 @@ GDirect == /\ One
                 /\ hist' = Append(hist, [a |-> "tcp_direct", t |-> t, sport |-> s, dip |-> ip, dport |-> port,
                                          after |-> After])
 
-GNext == GPolicy \/ GSkip \/ GRelease \/ GConnect4({TCP}) \/ GConnect4(Protos \ {TCP}) \/ GTcp \/ GDirect
+\* TLC evaluates invariants on every candidate successor; the single-successor closing step makes sure exactly the
+\* behaviour that was walked is printed, once.
+GEnd == /\ Len(hist) = GenDepth + 1 /\ hist' = Append(hist, [a |-> "end"]) /\ UNCHANGED vars
+
+GNext == GEnd \/ GPolicy \/ GSkip \/ GRelease \/ GConnect4({TCP}) \/ GConnect4(Protos \ {TCP}) \/ GTcp \/ GDirect
 
 GSpec == GInit /\ [][GNext]_gvars
 
 \* always TRUE; prints the behaviour once it is GenDepth steps long
-Emit == Len(hist) # GenDepth + 1 \/ PrintT(<<"BEH", ToJson(hist)>>)
-Stop == Len(hist) <= GenDepth + 1
+Emit == Len(hist) # GenDepth + 2 \/ PrintT(<<"BEH", ToJson(SubSeq(hist, 1, GenDepth + 1))>>)
+
 =============================================================================
